@@ -102,7 +102,7 @@ def render(items):
 
 
 COMMENTS = ["", " c", " Enddecay", " ; End", "# x ;;", " Decay A", " PHSP", " End", "\tyesPhotos", " 0.5 a b PHSP;", " CDecay B0",
-            " <-- End of the modes", " old:\u2028Define dm 9.9", " page\x0cyesPhotos", " x\x85Alias QQ pi+", " sep\x1cCDecay B0", " ps\u2029End", " vt\x0bnoPhotos"]
+            " <-- End of the modes", " see C:\\decfiles\\", " continued \\", " \\", " old:\u2028Define dm 9.9", " page\x0cyesPhotos", " x\x85Alias QQ pi+", " sep\x1cCDecay B0", " ps\u2029End", " vt\x0bnoPhotos"]
 
 
 def rewrite(items, rng, ops, p=0.3, crlf=None, stats=None):
